@@ -423,11 +423,17 @@ def ob_native_shapes():
         rots = _rot_grid()
         for i, rot in enumerate(rots):
             yield {"rot": float(rot), "kind": ["hex", "rect", "circle"][i % 3], "seed": int(r.randint(1 << 30))}
+            if i % 4 == 0:
+                yield {"rot": float(rot), "kind": ["hex", "rect"][(i // 4) % 2], "seed": int(r.randint(1 << 30)), "far": [3e5, 1e6, 2e4][(i // 8) % 3]}
 
     def check(case):
         rr = np.random.RandomState(case["seed"])
         pos = complex(rr.uniform(-50, 50), rr.uniform(-50, 50))
         rad = float(10 ** rr.uniform(-2, 2))
+        if case.get("far"):
+            # "every position": a cell that is small compared with its coordinates (a 50 m cell in map coordinates of thousands of km)
+            pos = complex(rr.uniform(-1, 1), rr.uniform(-1, 1)) * rad * case["far"]
+        far_slack = 1e-13 * abs(pos)          # coordinates of size |pos| carry a rounding error of that order
         rot = case["rot"]
         if case["kind"] == "hex":
             sh = shapes.Hexagon(pos, rad, rot)
@@ -469,15 +475,15 @@ def ob_native_shapes():
                 if case["kind"] == "circle":
                     onb = abs(abs(full - pos) - rad) <= 1e-9 * rad
                 else:
-                    onb = _on_boundary(v, full, 1e-9 * rad)
+                    onb = _on_boundary(v, full, 1e-9 * rad + far_slack)
                 if not onb:
-                    return {"shape": case["kind"], "rotation": rot, "angle": float(ang), "border point not on the boundary": str(full)}
+                    return {"shape": case["kind"], "pos": str(pos), "radius": rad, "rotation": rot, "angle": float(ang), "border point not on the boundary": str(full)}
                 d = (full - pos) / abs(full - pos)
                 want_dir = np.exp(1j * np.pi * ang / 180)
-                if (not (abs(d - want_dir) <= 1e-7)):
-                    return {"shape": case["kind"], "rotation": rot, "angle": float(ang), "direction": [str(d), str(want_dir)]}
+                if (not (abs(d - want_dir) <= 1e-7 + far_slack / rad)):
+                    return {"shape": case["kind"], "pos": str(pos), "radius": rad, "rotation": rot, "angle": float(ang), "direction": [str(d), str(want_dir)]}
                 rt = 1.0 if ratio is None else ratio
-                if (not (abs(bp - (pos + rt * (full - pos))) <= 1e-9 * rad)):
+                if (not (abs(bp - (pos + rt * (full - pos))) <= 1e-9 * rad + far_slack)):
                     return {"shape": case["kind"], "rotation": rot, "angle": float(ang), "ratio": ratio,
                             "border point": str(bp), "expected": str(pos + rt * (full - pos))}
         return None
@@ -496,6 +502,8 @@ def ob_native_users():
     def gen():
         for i in range(60 if quick() else 600):
             yield {"seed": int(r.randint(1 << 30)), "kind": ["hex", "square", "3sec"][i % 3]}
+            if i % 6 < 2:
+                yield {"seed": int(r.randint(1 << 30)), "kind": ["hex", "square"][i % 6], "demanding": True}
 
     def hull_ok(v, p, rad):
         if len(v) == 6 or len(v) == 4:
@@ -526,7 +534,13 @@ def ob_native_users():
                 else:
                     ce.move_by_relative_coordinate(complex(rr.uniform(-20, 20), rr.uniform(-20, 20)))
         md = float(rr.choice([0.0, 0.3, 0.6]))
-        ce.add_random_users(8, None, md)
+        nusers = 8
+        if case.get("demanding"):
+            # many users at a minimum distance that leaves only a small part of the cell (corners of a square, rim of a hexagon):
+            # "always inside their cell and no closer to its centre than requested" - for every user, not for most
+            md = float(rr.choice([0.65, 0.7] if case["kind"] == "square" else [0.8, 0.85]))
+            nusers = 150 if quick() else 1500
+        ce.add_random_users(nusers, None, md)
         if case["kind"] == "3sec":
             for sct in (1, 2, 3):
                 ce.add_random_users_in_sector(5, sct)
@@ -562,7 +576,7 @@ def ob_native_users():
                 m = _poly_member(v, u.pos)
                 if m is False:
                     return {"user outside the cell": str(u.pos), "kind": case["kind"], "rotation": rot}
-        for u in ce.users[:8]:
+        for u in ce.users[:nusers]:
             if (not (abs(u.pos - ce.pos) >= md * ce.radius * (1 - 1e-12))):
                 return {"user closer than min_dist_ratio*radius": [abs(u.pos - ce.pos), md * ce.radius]}
         if case["kind"] != "3sec":
